@@ -431,15 +431,18 @@ class AsyncTCPNetworkClient(AbstractAsyncNetworkClient[_T_SentPacket, _T_Receive
             self.__socket_connector.scope.cancel()
             self.__socket_connector = None
         try:
-            async with self.__send_lock:
-                if self.__endpoint is None:
-                    return
-                await self.__endpoint.aclose()
+            await self.__send_lock.acquire()
         except self.__backend.get_cancelled_exc_class():
             # Cancelled while waiting for a pending send_packet() to finish: close abruptly, as documented.
             if self.__endpoint is not None:
                 await aclose_forcefully(self.__endpoint)
             raise
+        try:
+            if self.__endpoint is None:
+                return
+            await self.__endpoint.aclose()
+        finally:
+            self.__send_lock.release()
 
     async def send_packet(self, packet: _T_SentPacket) -> None:
         """
